@@ -175,7 +175,17 @@ func (h *HttpServer) readHTTPBody(r *http.Request) ([]byte, error) {
 		} else if decompressedCap <= 0 && limit > 0 {
 			decompressedCap = limit * 16
 		}
-		return decompressBounded(encoding, body, decompressedCap)
+		decoded, derr := decompressBounded(encoding, body, decompressedCap)
+		// decompressBounded reports every cap overrun as
+		// requestBodyTooLargeError. That is the 413 answer, which names
+		// max_request_bytes and points the client at the upload-URL flow, so
+		// keep it only when the cap that was hit is the advertised request
+		// cap; the operator's decompression-bomb bound is a plain 400.
+		var tooLarge *requestBodyTooLargeError
+		if errors.As(derr, &tooLarge) && !(requestCapApplied && decompressedCap == limit) {
+			return nil, &RpcError{Type: "ValueError", Message: fmt.Sprintf("Decompressed request body exceeds maximum size of %d bytes", decompressedCap)}
+		}
+		return decoded, derr
 	default:
 		return nil, &unsupportedEncodingError{Encoding: encoding}
 	}
